@@ -186,6 +186,43 @@ def require_clean_mc(r, module, must_have_actions=()):
             raise ToolError("vacuity: action %s of %s was never taken" % (a, module))
 
 
+def tlaps(module, wd, timeout=900, threads=8):
+    """check the TLAPS proofs of SPEC/<module>.tla from scratch (own cache directory); returns the number of proof
+    obligations proved.  An unproved obligation is a tool error: the proof is about the model, not about the code."""
+    cache = os.path.join(wd, "tlapm-" + module)
+    cmd = ["tlapm", "--threads", str(threads), "-I", SPEC, "--cache-dir", cache, os.path.join(SPEC, module + ".tla")]
+    try:
+        p = subprocess.run(cmd, cwd=wd, timeout=timeout, stdout=subprocess.PIPE, stderr=subprocess.STDOUT)
+    except subprocess.TimeoutExpired:
+        raise ToolError("tlapm timeout after %ds: %s" % (timeout, module))
+    out = p.stdout.decode("utf-8", "replace")
+    m = re.search(r"All (\d+) obligations? proved", out)
+    if p.returncode != 0 or not m:
+        raise ToolError("tlapm could not prove %s:\n%s" % (module, tail(out)))
+    return int(m.group(1))
+
+
+class Probe:
+    """Stands in for a Verdict when a comparison itself is tested: the check feeds deliberately corrupted
+    observations through the same judging code and every one of them must be flagged (binding self-test of the
+    checks whose oracle is an equality with a value computed by TLC)."""
+    def __init__(self):
+        self.hits = []
+
+    def violation(self, key, what, payload=None):
+        self.hits.append(key)
+
+
+def forward_selftest(cases):
+    """cases: list of (name, flagged: bool).  A corrupted observation that is not flagged makes the check void."""
+    missed = [n for n, flagged in cases if not flagged]
+    if missed:
+        raise ToolError("binding self-test: corrupted observations were accepted by the comparison: %s" % missed)
+    if not cases:
+        raise ToolError("binding self-test: no corrupted observation could be built")
+    return sorted({n.split('#')[0] for n, _ in cases})
+
+
 class SpecViolation(Exception):
     def __init__(self, module, what, out):
         Exception.__init__(self, "%s violates %s" % (module, what))
